@@ -136,19 +136,27 @@ func (s *c03Sim) logf(f string, a ...any) { s.Log = append(s.Log, fmt.Sprintf(f,
 func (s *c03Sim) history() string { return strings.Join(s.Log, " ; ") }
 
 func setIndexOf(sets [][][]byte, m p2pmsg.Message) int {
-	var first []byte
+	var ids [][]byte
 	switch x := m.(type) {
 	case *p2pmsg.DecryptionKeyShares:
-		if len(x.Shares) > 0 {
-			first = x.Shares[0].IdentityPreimage
+		for _, sh := range x.Shares {
+			ids = append(ids, sh.IdentityPreimage)
 		}
 	case *p2pmsg.DecryptionKeys:
-		if len(x.Keys) > 0 {
-			first = x.Keys[0].IdentityPreimage
+		for _, k := range x.Keys {
+			ids = append(ids, k.IdentityPreimage)
 		}
 	}
+	// requests may share identities (also their first one): compare the whole list
 	for i, set := range sets {
-		if bytes.Equal(set[0], first) {
+		if len(set) != len(ids) {
+			continue
+		}
+		same := true
+		for j := range set {
+			same = same && bytes.Equal(set[j], ids[j])
+		}
+		if same {
 			return i
 		}
 	}
@@ -378,6 +386,16 @@ func genIdentitySets(rt *rapid.T, fl flavour) [][][]byte {
 		// completes each request exactly when it holds t share messages of that request)
 		// the second request repeats an identity of the first one (a keyper is asked again before the first
 		// keys are known) between identities of its own: [new, shared, own...]
+		if rapid.Bool().Draw(rt, "sharedFirst") {
+			// ... or as the first identity of both requests
+			set := append([][]byte{sets[0][0]}, sets[1]...)
+			sort.Slice(set, func(i, j int) bool { return bytes.Compare(set[i], set[j]) < 0 })
+			if len(set) > 3 {
+				set = set[:3]
+			}
+			sets[1] = set
+			return sets
+		}
 		first := bytes.Repeat([]byte{0x3f}, fl.identityLen())
 		shared := sets[0][len(sets[0])-1]
 		set := append([][]byte{first, shared}, sets[1]...)
